@@ -119,7 +119,8 @@ structure ClipState (K : Type) where
   nearDiag : Bool
   farDiag : Bool
 
-/-- loop body of `clip_aabb_line` for axis `i`; `none` = `return None`.
+/-- the part of the loop body of `clip_aabb_line` after the two plane parameters have been sorted (`near ≤ far`, `flip` = they
+were swapped): narrows `[tmin, tmax]`, records sides / diagonal ties; `none` = `return None`.
 FIX (`fixes/C17-clip-aabb-line.diff`): the pinned tree also returns `None` when `tmax < 0.0` (a *ray* test inside the *line*
 clipper: `clip_line_parameters` of a line whose box lies behind `origin` answers "no intersection"); the corrected code
 keeps only `tmin > tmax` (the ray test moves to `ray_aabb`; `clip_ray_parameters` already has its own). -/
@@ -134,6 +135,7 @@ def clipUpdate (st : ClipState K) (near far : K) (flip : Bool) (i : Fin 3) : Opt
     else if neq far st1.tmax then { st1 with farDiag := true } else st1
   if st2.tmax < st2.tmin then none else some st2
 
+/-- loop body of `clip_aabb_line` for axis `i`; `none` = `return None` -/
 def clipStep (b : Aabb3 K) (o d : V3 K) (st : ClipState K) (i : Fin 3) : Option (ClipState K) :=
   if neq (d.get i.val) 0 then
     if o.get i.val < b.mins.get i.val || b.maxs.get i.val < o.get i.val then none else some st
